@@ -297,17 +297,40 @@ _STREAM_TURN = [0]
 
 def stream(data: bytes):
     """A binary stream over the bytes, as callers may hand one in: an in-memory BytesIO, a buffered reader with a small
-    or a large buffer (what open(path, 'rb') returns), or a real temporary file.  Rotates deterministically."""
+    or a large buffer (what open(path, 'rb') returns), a real temporary file, a dump that does not begin at offset 0 of
+    its stream (behind a wrapper the caller has already consumed: in memory and on disk), and the file objects of the
+    compression modules (gzip / bz2 / lzma: seekable streams that deliver the dump's bytes while their fileno() names
+    a file holding other bytes).  Rotates deterministically."""
     import io
     import tempfile
     _STREAM_TURN[0] += 1
-    k = _STREAM_TURN[0] % 5
+    k = _STREAM_TURN[0] % 11
     if k in (0, 1):
         return io.BytesIO(data)
     if k == 2:
         return io.BufferedReader(io.BytesIO(data), buffer_size=16)
     if k == 3:
         return io.BufferedReader(io.BytesIO(data), buffer_size=1 << 16)
+    if k in (5, 6):
+        prefix = (b'BUNDLE\x00\x01' + bytes(range(1, 17)), b'\x00' * 4096 + b'wrap')[_STREAM_TURN[0] % 2]
+        f = io.BytesIO(prefix + data) if k == 5 else tempfile.TemporaryFile()
+        if k == 6:
+            f.write(prefix + data)
+        f.seek(len(prefix))
+        return f
+    if k in (7, 8, 9):
+        import bz2
+        import gzip
+        import lzma
+        mod = (gzip, bz2, lzma)[k - 7]
+        if len(data) > 1 << 20:
+            return io.BytesIO(data)                 # (backward seeks re-read a compressed stream from its start)
+        tmp = tempfile.NamedTemporaryFile(prefix='verif-stream-', suffix='.' + mod.__name__)
+        tmp.write(mod.compress(data))
+        tmp.flush()
+        f = mod.open(tmp.name, 'rb')
+        f._verif_keep_alive = tmp                   # the compressed file lives as long as the stream object
+        return f
     f = tempfile.TemporaryFile()
     f.write(data)
     f.seek(0)
